@@ -1,7 +1,8 @@
 PROP = dict(
     module="M3d.Props.C06",
     corr=dict(quick=300, thorough=2500),
-    gen=[],
+    gen=["Kernels"],
+    tie_modules=["M3d.Lemmas.KernelsTieSdf"],
     corr_theorems=(
         "b.* kinds compare the real Go outputs bit-for-bit with the Float run of the faithful models of lean/M3d/Model/Sdf.lean "
         "(sphereOut/circleOut, rectOut3/2, capsuleOut3/2, cylinderOut, coneOut, torusOut, tri2Out, segClosest3/2, triClosest/triDist, "
@@ -26,6 +27,12 @@ PROP = dict(
         "op lines; #stat counters record query classes, inside/outside, parity, gradient checks performed/skipped"
     ),
     trusted=[
+        "regenerated, not hand-written: lean/M3d/Gen/Kernels.lean is produced on every run by the Go->Lean translator "
+        "harness/hlib/go2lean (typed, closed under calls, conservative) from model3d/model2d coords.go, matrix.go, primitives.go, "
+        "shapes.go, transform.go; M3d.KernelsTie.Sdf.* re-prove against that text that the hand models of the vector algebra, "
+        "OrthoBasis, Matrix3 det/inverse, NewSegment, Segment.Closest/Dist, Triangle.Normal, Sphere/Circle SDFs, Rect.Contains "
+        "(2-D and 3-D) are the functions the source defines now; the translator itself is validated on every run by executing "
+        "every exported generated definition at Float against the real function (kind gk, bit for bit)",
         "modelled, not verified: float64 arithmetic as exact field arithmetic with an exact square root (theorems are about the "
         "model over every linear ordered field with E.Exact; the tie to the floats is the bit-for-bit Float run of the same model)",
         "safeNormal's 1e-5 threshold: in exact arithmetic the projected direction has norm 1, so the fallback is only taken for a "
